@@ -90,6 +90,18 @@ add("C18", "CH",
     "DESIGN.md section 5 C18",
     "<= 2 settings entries quick / 3 thorough, <= 2 fields per entry; yaml.dump error rendering stubbed. " + CLIENT_NOTE)
 
+add("C16", "CH",
+    "CrossHair (z3) enumeration with solver-proved exhaustion over the real API.build (all passes) on descriptor sets "
+    "selected by symbolic booleans; reachability-closure oracle",
+    "For ALL type graphs / RPC type choices / non-empty allow-list subsets within the bound the kept messages, enums, "
+    "services, methods and files equal the reference reachability closure (fields, nested types, enum-only file, "
+    "other-file message, resource reference, LRO types), no dangling field type, dependency files untouched; internal "
+    "mode keeps everything and marks exactly the unlisted RPCs/services; unknown and other-version names rejected.",
+    "DESIGN.md section 5 C16",
+    "3 top-level messages, 6 cross edges, 3 structure variants quick (48 thorough), 3 RPCs in 2 services. The symbolic "
+    "inputs only select the structure: path exploration with exhaustion proved by CrossHair/z3 (weakest solver use, "
+    "stated). Rendering/importing the pruned library is outside the claim.")
+
 PENDING = {}
 
 
